@@ -45,6 +45,13 @@ def prove(rep, pid):
         grep_forbidden()
         n, ok, details = audit(mod, thms)
         rep.add_proof(n, ok, details, cmd)
+        if rep.tier == "thorough":
+            # independent re-check of the compiled module (and everything it imports) by the toolchain's leanchecker
+            from common import sh, LEAN
+            rc, o, e = sh(["lake", "env", "leanchecker", mod], cwd=LEAN, timeout=3600)
+            rep.cov["leanchecker"] = "ok" if rc == 0 else "FAILED: " + (o + e)[-400:]
+            if rc != 0:
+                raise Broken("leanchecker", (o + e)[-2000:])
     except Broken as b:
         # a proof obligation (possibly one about the regenerated facts) no longer checks: record it and go on to
         # the engines, which search for a concrete failing input
